@@ -180,6 +180,22 @@ def replay(spec):
         if got != expect:
             return dict(source=src, expected="accept" if expect else "reject", observed="accept" if got else "reject", detail=detail)
         return None
+    if inst.get("part") == "index-type" and "sequence" in inst:
+        from nsl import Compiler
+        c = Compiler.Compiler()
+        got = None
+        for text in inst["sequence"]:
+            out = io.StringIO()
+            try:
+                with contextlib.redirect_stdout(out), contextlib.redirect_stderr(out):
+                    got = c.Compile(text) is not None
+            except SystemExit:
+                got = False
+            except Exception:  # noqa: BLE001
+                got = False
+        if got != inst["expect_last"]:
+            return dict(sequence=inst["sequence"], label=inst["label"], expected="accept" if inst["expect_last"] else "reject", observed="accept" if got else "reject")
+        return None
     if inst.get("part") == "index-type":
         got, detail = compile_accepts(inst["src"])
         if got != inst["expect"]:
@@ -204,6 +220,22 @@ def _index_type_instances():
     for lit, ok in (("0", True), ("3", True), ("4", False), ("-1", False), ("+1", True), ("0x3", True), ("0x4", False),
                     ("03", True), ("04", False), ("1.0", False), ("1.5", False)):
         out.append(dict(part="index-type", src=f"export function f() -> void {{ int[4] a; a[{lit}]; }}", expect=ok))
+    # suffixed spellings the lexer tokenises as integer constants: out of range stays out of range ("only if" direction of the statement;
+    # whether an in-range suffixed constant is accepted is not fixed by it)
+    for lit in ("4u", "4U", "7l", "0x4u", "04u", "9ul", "4LL", "100u"):
+        for cont, acc in (("int[4] a", "a[{0}]"), ("int[2][4] a", "a[1][{0}]"), ("float4 a", "a[{0}]"), ("float3x3 a", "a[{0}][0]"), ("float3x3 a", "a[0][{0}]")):
+            out.append(dict(part="index-type", src=f"export function f() -> void {{ {cont}; {acc.format(lit)}; }}", expect=False))
+    # a compiler object that is used for several texts: each text is judged on its own (functions not exported, distinct names)
+    seqs = [
+        ("function s{0}(int i) -> void {{ int[4] a; a[i]; }}", "function s{0}(float i) -> void {{ int[4] a; a[i]; }}".replace("float i", "float i"), "index type after an accepted text of the same layout"),
+        ("function s{0}(int q) -> void {{ int[4] a; a[3]; }}", "function s{0}(int q) -> void {{ int[4] a; a[4]; }}", "bounds after an accepted text of the same layout"),
+        ("function s{0}(int q) -> void {{ float4 a; a.xyz; }}", "function s{0}(int q) -> void {{ float4 a; a.xyr; }}", "swizzle mask after an accepted text of the same layout"),
+        ("function s{0}(int q) -> void {{ float3 a; a.xyz; }}", "function s{0}(int q) -> void {{ float3 a; a.xyw; }}", "swizzle component after an accepted text of the same layout"),
+        ("function s{0}(int q) -> void {{ float3x3 a; a[2][1]; }}", "function s{0}(int q) -> void {{ float3x3 a; a[2][3]; }}", "matrix bounds after an accepted text of the same layout"),
+    ]
+    for k, (good, bad, label) in enumerate(seqs):
+        out.append(dict(part="index-type", sequence=[good.format(2 * k), bad.format(2 * k + 1)], expect_last=False, label=label))
+        out.append(dict(part="index-type", sequence=[good.format(2 * k), good.format(2 * k + 1).replace("a[3]", "a[2]")], expect_last=True, label=label + " (second text valid)"))
     return out
 
 
